@@ -406,6 +406,9 @@ func (pd *perBitData) parseInteger(extensed bool, lowerBoundPtr *int64, upperBou
 		rawLength = uint(pd.bytes[pd.byteOffset])
 		pd.byteOffset++
 		perTrace(1, perBitLog(8, pd.byteOffset, pd.bitsOffset, uint64(rawLength)))
+		if rawLength == 0 {
+			return int64(0), fmt.Errorf("INTEGER length is zero")
+		}
 	} else if valueRange <= 65536 {
 		rawValue, err := pd.parseConstraintValue(valueRange)
 		if err != nil {
